@@ -62,3 +62,8 @@ def run(ctx):
     poolconf.factory_design_legs(ctx, quick, ['CallOK', 'NoBad', 'NoDeadlock'], 'stale', ['NoDeadlock'])
     rnd = random.Random(ctx.seed * 7919 + 103)
     C01.run_family(ctx, scenarios(rnd, quick), 400 if quick else 15000, "C03")
+
+
+def replay_witness(ctx, witness):
+    from adapters import poolsim
+    return poolsim.replay_witness(ctx, witness)
